@@ -309,7 +309,7 @@ func faultVariants(rng *rand.Rand, m *ref.MCMap) []struct {
 }
 
 func runC07(r *rt.Runner) {
-	n := r.N(30000, 600000)
+	n := r.N(80000, 800000)
 	for k := 0; k < n; k++ {
 		r.Case("cmap", func(c *rt.C) {
 			rng := c.Rand()
@@ -414,7 +414,7 @@ func runC07(r *rt.Runner) {
 		}
 	}
 	// single-fault variants: each must be rejected
-	nf := r.N(1000, 20000)
+	nf := r.N(3000, 30000)
 	for k := 0; k < nf; k++ {
 		r.Case("fault", func(c *rt.C) {
 			rng := c.Rand()
